@@ -1,4 +1,6 @@
 """C03 -- a cycle is the textbook multigrid recursion: fixed, linear and consistent."""
+import warnings
+
 import numpy as np
 import scipy.sparse as sp
 
@@ -200,7 +202,10 @@ SMOOTHERS = [('gauss_seidel', {'sweep': 'symmetric'}), ('gauss_seidel', {'sweep'
              ('gauss_seidel_ne', {'sweep': 'forward'}), ('jacobi_ne', {}), ('chebyshev', {'degree': 2}),
              ('richardson', {'omega': 0.6}), ('block_jacobi', {'blocksize': 1}),
              ('chebyshev', {'degree': 3, 'iterations': 2}), ('richardson', {'omega': 0.5, 'iterations': 3}),
-             ('jacobi', {'omega': 0.7, 'iterations': 2}), ('schwarz', {'iterations': 2})]
+             ('jacobi', {'omega': 0.7, 'iterations': 2}), ('schwarz', {'iterations': 2}),
+             # genuine 2x2 blocks (blocksize 1 is replaced by the point method in the setup); fall back to 1 on odd sizes
+             ('block_gauss_seidel', {'sweep': 'forward', 'blocksize': 2}), ('block_jacobi', {'blocksize': 2}),
+             ('block_gauss_seidel', {'sweep': 'symmetric', 'blocksize': 2, 'iterations': 2})]
 
 
 def oracle_part(ctx):
@@ -237,6 +242,8 @@ def oracle_part(ctx):
         from pyamg.multilevel import coarse_grid_solver
         ml.coarse_solver = coarse_grid_solver(coarse)
         pre, post = SMOOTHERS[idx % len(SMOOTHERS)], SMOOTHERS[(5 * idx + 3) % len(SMOOTHERS)]
+        if any(ml.levels[l].A.shape[0] % 2 for l in range(nlev - 1)):
+            pre, post = [(nm, dict(kw, blocksize=1)) if kw.get('blocksize') == 2 else (nm, kw) for nm, kw in (pre, post)]
         from pyamg.relaxation.smoothing import change_smoothers
         try:
             change_smoothers(ml, presmoother=pre, postsmoother=post)
@@ -319,6 +326,34 @@ def oracle_part(ctx):
                     ctx.fail('aspreconditioner/%s/not-linear' % cname, 'M(2.5u+v) != 2.5Mu+Mv', cs)
                 if _nn(np.linalg.norm(Mu - M @ u)) > tol * (1 + np.linalg.norm(Mu)):
                     ctx.fail('aspreconditioner/%s/not-M' % cname, '|Mu - M_textbook u| = %.3g' % np.linalg.norm(Mu - M @ u), cs)
+                # the operator handed to a Krylov accelerator by solve(accel=..., cycle=...) is that same M
+                got = {}
+
+                def spy(A_, b_, x0=None, tol=None, maxiter=None, M=None, callback=None, **kw):
+                    got['Mu'] = M @ u
+                    return (np.zeros_like(b_) if x0 is None else np.array(x0)), 0
+                try:
+                    with warnings.catch_warnings():
+                        warnings.simplefilter('ignore')
+                        ml.solve(b, x0=x0, maxiter=2, cycle=cname, accel=spy)
+                    if _nn(np.linalg.norm(got['Mu'] - M @ u)) > tol * (1 + np.linalg.norm(Mu)):
+                        ctx.fail('accel-preconditioner/%s/not-M' % cname, 'solve(accel=..., cycle=%r) hands the accelerator an operator with '
+                                 '|M u - M_textbook u| = %.3g' % (cname, np.linalg.norm(got['Mu'] - M @ u)), cs)
+                    ctx.count('accel-preconditioner')
+                except Exception as e:   # noqa
+                    ctx.fail('accel-preconditioner/%s/raises' % cname, repr(e), cs)
+            # one call with maxiter=1 is one cycle whatever the tolerance and however good the guess: a guess whose
+            # residual is already below the (default) tolerance is still updated by x + M(b - A x)
+            if np.linalg.cond(A0) < 1e8 and nlev > 1:
+                xs = np.linalg.solve(A0, b)
+                xn = xs + 1e-7 * np.array([rng.uniform(-1, 1) for _ in range(n0)]).astype(dt) * (1 + np.linalg.norm(xs))
+                x1 = ml.solve(b, x0=xn, maxiter=1, cycle=cname, cycles_per_level=cpl)
+                want = xn + M @ (b - A0 @ xn)
+                den = np.linalg.norm(M @ (b - A0 @ xn))
+                if den > 0 and _nn(np.linalg.norm(x1 - want)) > 1e-6 * den + 1e-13 * (1 + np.linalg.norm(want)):
+                    ctx.fail('cycle/%s/near-solution-guess' % cname, 'x0 within the default tolerance: |solve - (x + M(b-Ax))| = %.3g, |M r| = %.3g'
+                             % (np.linalg.norm(x1 - want), den), cs)
+                ctx.count('near-solution-guess')
 
 
 def run(ctx):
